@@ -31,18 +31,18 @@ Theorem C03_ownership_invariant : forall cfg s e s',
 Proof. exact own_step. Qed.
 Print Assumptions C03_ownership_invariant.
 
-(* D6: operation 1 is inside its critical section over nodes 0 and 1 while the lock of node 1 is free (trace recorded from the
+(* D6: operation 0 is inside its critical section over nodes 0 and 1 while the lock of node 0 is free (trace recorded from the
    implementation) *)
 Theorem C03_serializable_refuted :
   exists s, run cfg_cross (init 2 cfg_cross) steal_trace = Some s /\
-    critical s 1 0 = true /\ critical s 1 1 = true /\ lock_of s 1 = None.
+    critical s 0 0 = true /\ critical s 0 1 = true /\ lock_of s 0 = None.
 Proof. exact mutual_exclusion_refuted_lemma. Qed.
 Print Assumptions C03_serializable_refuted.
 
-(* ... because the release_global_lock of operation 0's timeout branch freed the lock operation 1 held *)
+(* ... because the release_global_lock of operation 1's timeout branch freed the lock operation 0 held *)
 Theorem C03_foreign_release :
-  exists pre s, pre ++ [ERel 1 0 true] = steal_trace /\
+  exists pre s, pre ++ [ERel 0 1 true] = steal_trace /\
     run cfg_cross (init 2 cfg_cross) pre = Some s /\
-    critical s 1 1 = true /\ lock_of s 1 = Some (1, false).
+    critical s 0 0 = true /\ lock_of s 0 = Some (0, false).
 Proof. exact foreign_release_lemma. Qed.
 Print Assumptions C03_foreign_release.
